@@ -17,7 +17,8 @@ import scipy.optimize
 
 from .. import cover, functab, util
 
-SHARDS = {'quick': 4, 'thorough': 16}
+SHARDS = {'quick': 8, 'thorough': 16}
+THOROUGH_ROUNDS = 3
 S = odl.solvers
 ELEMENT_SIGMA = ('L1Norm', 'L2NormSquared', 'L1Norm.convex_conj', 'L2NormSquared.convex_conj')
 
@@ -79,11 +80,13 @@ def check_prox(ctx, f, sp, sigma, x, comp, cfg, rng, tags, P=None):
         try:
             cands = [p * (1 - 1e-13), p * (1 - 1e-12)]
             feas = []
+            allz = []
             for k in range(24):
                 if k < 16:
                     z = P(functab.rand_el(sp, rng, (2.0, 0.3, 5.0, 1.0)[k % 4]))
                 else:
                     z = P(p + functab.rand_el(sp, rng, (1e-1, 1e-2)[k % 2]))
+                allz.append(z)
                 if np.isfinite(f(z)):
                     feas.append(z)
                     cands.extend(p + t * (z - p) for t in (1e-13, 1e-12, 1e-11))
@@ -93,6 +96,13 @@ def check_prox(ctx, f, sp, sigma, x, comp, cfg, rng, tags, P=None):
                 for z in feas[1:]:
                     zbar = zbar + z * (1.0 / len(feas))
                 cands.extend(p + t * (zbar - p) for t in (1e-13, 1e-12, 1e-11, 1e-10))
+            # in many dimensions every prox image is itself one rounding error outside in some coordinate; their mean
+            # is strictly inside in every coordinate in which they differ (the candidate is accepted only if f is
+            # finite there, however it was constructed)
+            zall = allz[0] * (1.0 / len(allz))
+            for z in allz[1:]:
+                zall = zall + z * (1.0 / len(allz))
+            cands.extend(p + t * (zall - p) for t in (1e-13, 1e-12, 1e-11, 1e-10))
             for q in cands:
                 if np.isfinite(f(q)) and (q - p).norm() <= 1e-9 * max(1.0, p.norm()):
                     near = True
@@ -150,6 +160,34 @@ def check_prox(ctx, f, sp, sigma, x, comp, cfg, rng, tags, P=None):
         if (pp - p).norm() > 1e-9 * max(1.0, p.norm()):
             ctx.violation(comp, cfg, 'not-the-minimiser', symptom='projection-not-idempotent', diff=float((pp - p).norm()))
     return P
+
+
+def check_call_modes(ctx, P, sp, x, comp, cfg):
+    """The returned point is the same point in every call mode the solvers use: out-of-place, into a separate (NaN-filled)
+    output, and in place with ``out`` aliased to the input (admm, douglas_rachford_pd, forward_backward_pd call
+    ``prox(x, out=x)``); the input is not modified unless it is the output."""
+    ctx.ev('call-modes')
+    x0 = x.copy()
+    p = P(x)
+    if (x - x0).norm() != 0:
+        ctx.violation(comp, cfg, 'not-the-minimiser', symptom='input-modified-by-out-of-place-call')
+        return
+    tol = 1e-12 * max(1.0, p.norm())
+    out = util.fill(sp.element(), 'nan')
+    r = P(x, out=out)
+    if r is not out:
+        ctx.violation(comp, cfg, 'not-the-minimiser', symptom='out-not-returned')
+    d = (out - p).norm()
+    if not d <= tol:
+        ctx.violation(comp, cfg, 'not-the-minimiser', symptom='separate-out-differs', diff=float(d))
+    if (x - x0).norm() != 0:
+        ctx.violation(comp, cfg, 'not-the-minimiser', symptom='input-modified-by-call-with-separate-out')
+        return
+    xa = x.copy()
+    P(xa, out=xa)
+    d = (xa - p).norm()
+    if not d <= tol:
+        ctx.violation(comp, cfg, 'not-the-minimiser', symptom='aliased-out-differs', diff=float(d))
 
 
 def check_nonexpansive(ctx, P, sp, comp, cfg, rng, sigma):
@@ -219,12 +257,16 @@ def run(ctx):
     r3 = odl.rn(3, weighting=1.5)
     for fname, thunk, tags in functab.funcs(r3, crng):
         recipes.append((fname, 'rn3w', r3, thunk, tags))
+    for fname, sname, sp, thunk, tags, _ref in functab.all_composed(crng, ctx.thorough):
+        recipes.append((fname, sname, sp, thunk, tags))
     for fname, sname, sp, thunk, tags in recipes:
         i += 1
         if not ctx.mine(i):
             continue
         if 'noprox' in tags:
             continue
+        full_name = fname
+        fname = functab.composed_component(fname, tags)
         if sname == 'rn150' and not ctx.thorough and fname not in ('L1Norm', 'L2Norm', 'L2NormSquared', 'Huber', 'IndicatorBox', 'KullbackLeibler(prior)'):
             continue
         try:
@@ -251,11 +293,12 @@ def run(ctx):
             for xcls, x in functab.x_classes(sp, rng, tags):
                 if xcls in ('tiny', 'huge', 'with-exact-zeros', 'at-threshold') and not ctx.thorough and (i + len(xcls)) % 2:
                     continue
-                ctx.case('prox;%s;%s;%s' % (fname, sname, sname_s), xcls)
+                ctx.case('prox;%s;%s;%s' % (full_name, sname, sname_s), xcls)
                 if i % 41 == 0 and xcls == 'generic':
-                    ctx.sample({'functional': fname, 'space': util.srepr(sp, 60), 'sigma': sname_s, 'x': util.to_cvec(sp, x)[:5]})
+                    ctx.sample({'functional': full_name, 'space': util.srepr(sp, 60), 'sigma': sname_s, 'x': util.to_cvec(sp, x)[:5]})
                 try:
                     check_prox(ctx, f, sp, sigma, x, fname, cfg, rng, tags, P=P)
+                    check_call_modes(ctx, P, sp, x, fname, cfg)
                     if sname == 'rn3w' and xcls == 'generic':
                         scipy_minimiser(ctx, f, sp, sigma, x, P(x), fname, cfg)
                 except (NotImplementedError, odl.OpNotImplementedError):
